@@ -181,6 +181,10 @@ def tt_dimscheck(  # noqa: PLR0912
         raise ValueError(
             "Negative dims aren't allowed in pyttb, see exclude_dims argument instead"
         )
+    if not np.all(np.isin(dim_array, np.arange(0, N))):
+        assert False, "dims must contain values in [0,self.dims)"
+    if np.unique(dim_array).size != dim_array.size:
+        raise ValueError(f"dims must not contain repeated modes but got {dim_array}")
 
     # Save dimensions of dims
     P = len(dim_array)
